@@ -164,6 +164,28 @@ class Gen:
         kind = self.r.randint(0, 4) if kind is None else kind
         self.ops.append([40, r, kind, self.r.randint(0, n + 2), self.r.randint(100, 900)])
 
+    def nth_sess(self, r, which=None):
+        """Iterator::nth / skip on a borrowing iterator, a drain or a consuming iterator"""
+        self.ensure_filled(r)
+        n = len(self.sim[r].e)
+        pre = self.r.randint(0, n)
+        nk = self.r.choice([0, 0, 1, 2, max(0, n - pre - 1), max(0, n - pre), n - pre + 1, n + 3])
+        which = self.r.choice(["iter", "drain", "into"]) if which is None else which
+        if r < 2:
+            if which == "iter":
+                self.ops.append([42, r, self.r.randint(0, 4), pre, nk])
+            elif which == "drain":
+                self.ops.append([43, r, pre, nk])
+                self.sim[r].e = []
+            else:
+                self.ops.append([44, r, self.r.randint(0, 2), pre, nk])
+                self.sim[r].e = []
+        else:
+            code = {"iter": 142, "drain": 143, "into": 144}[which]
+            self.ops.append([code, r, pre, nk])
+            if which != "iter":
+                self.sim[r].e = []
+
     def into_sess(self, r, kind=None):
         self.ensure_filled(r)
         n = len(self.sim[r].e)
@@ -401,6 +423,7 @@ MENU_MAP_CORE = [
     (0.7, lambda g: g.drain(m_reg(g))),
 ]
 MENU_MAP_ITER = [
+    (1.5, lambda g: g.nth_sess(m_reg(g))),
     (3, lambda g: g.iter_sess(m_reg(g))),
     (1.5, lambda g: g.into_sess(m_reg(g))),
     (1, lambda g: g.drain(m_reg(g))),
@@ -430,6 +453,7 @@ MENU_SET_CORE = [
     (1, lambda g: g.s_extend(s_reg(g))),
 ]
 MENU_SET_ITER = [
+    (1, lambda g: g.nth_sess(s_reg(g))),
     (2, lambda g: g.s_iter(s_reg(g))),
     (1, lambda g: g.s_into(s_reg(g))),
 ]
@@ -498,16 +522,23 @@ def suite(prop, rng, tier):
         cases += algebra_pairs(rng, big)
         rnd(scale(MENU_SET_CORE, 0.5) + scale(MENU_SET_ALG, 2), N(100, 2000), (10, 40))
     elif prop == "C09":
-        rnd(MENU_MAP_CORE + scale([(3, lambda g: g.iter_sess(m_reg(g)))], 2)
-            + MENU_SET_CORE + [(4, lambda g: g.s_iter(s_reg(g)))], N(300, 4000), (10, 40))
+        rnd(MENU_MAP_CORE + scale([(3, lambda g: g.iter_sess(m_reg(g)))], 2) + [(3, lambda g: g.nth_sess(m_reg(g), "iter"))]
+            + MENU_SET_CORE + [(4, lambda g: g.s_iter(s_reg(g))), (2, lambda g: g.nth_sess(s_reg(g), "iter"))], N(300, 4000), (10, 40))
     elif prop == "C10":
-        rnd(MENU_MAP_CORE + [(4, lambda g: g.into_sess(m_reg(g))), (4, lambda g: g.drain(m_reg(g)))]
-            + MENU_SET_CORE + [(3, lambda g: g.s_into(s_reg(g))), (3, lambda g: g.s_drain(s_reg(g)))],
+        rnd(MENU_MAP_CORE + [(4, lambda g: g.into_sess(m_reg(g))), (4, lambda g: g.drain(m_reg(g))),
+                             (2, lambda g: g.nth_sess(m_reg(g), "drain")), (2, lambda g: g.nth_sess(m_reg(g), "into"))]
+            + MENU_SET_CORE + [(3, lambda g: g.s_into(s_reg(g))), (3, lambda g: g.s_drain(s_reg(g))),
+                               (1.5, lambda g: g.nth_sess(s_reg(g), "drain")), (1.5, lambda g: g.nth_sess(s_reg(g), "into"))],
             N(300, 4000), (10, 40))
     elif prop == "C11":
         rnd(MENU_MAP_CORE + scale(MENU_MAP_ENTRY, 4), N(300, 5000), (10, 40))
     elif prop == "C12":
-        rnd(MENU_MAP_CORE + scale(MENU_MAP_ENTRY, 1) + MENU_SET_CORE, N(300, 5000), (10, 40), ncls=3)
+        rnd(MENU_MAP_CORE + scale(MENU_MAP_ENTRY, 1) + MENU_SET_CORE, N(200, 3000), (10, 40), ncls=3)
+        # larger containers: the stored-key rules must hold at every slot position
+        rnd([(8, lambda g: g.ins(m_reg(g))), (2, lambda g: g.lookup(m_reg(g), 22)), (1, lambda g: g.rem(m_reg(g), 31)),
+             (6, lambda g: g.s_ins(s_reg(g))), (1, lambda g: g.s_rem(s_reg(g), 131)), (1, lambda g: g.s_lookup(s_reg(g), 122)),
+             (2, lambda g: g.entry(m_reg(g)))],
+            N(150, 2500), (25, 60), ncls=9, caps=[8, 8, 8, 8])
     elif prop == "C13":
         rnd(MENU_MAP_CORE + scale(MENU_MAP_DISJ, 4), N(300, 5000), (8, 30))
     elif prop == "C14":
